@@ -55,6 +55,7 @@ TIERS = {
     "quick": {"histories": 1, "budget_s": 55, "timeout": 120, "shrink_s": 60},
     "thorough": {"histories": 1, "budget_s": 560, "timeout": 300, "shrink_s": 120, "exhaustive": True},
 }
+SHRINK_EACH_IDENTITY = True  # one replay per violation identity class, each shrunk to its own single operation
 _SEEDS = {}
 
 
